@@ -45,7 +45,7 @@ def run(ctx):
     ctx.prove()
     if ctx.thorough():
         ctx.leanchecker()
-    sizes = [200] * 16 if ctx.thorough() else [60, 60]
+    sizes = [120] * 10 if ctx.thorough() else [60, 60]
     if ctx.broken:
         sizes = sizes * 2
     batches = S.run_batches(ctx, "C02", {"layout", "negative"}, sizes, ptr_embed=True, seed_tag=2)
